@@ -270,6 +270,13 @@ func (bloomFilter *BloomFilter) Import(data []byte) error {
 	bloomFilter.size = f.M
 	bloomFilter.numHashes = f.K
 	_, err = bloomFilter.filter.unmarshal(f.B)
+	if err != nil {
+		return err
+	}
+	if !isBitSetMem(bloomFilter.filter) && bloomFilter.metadataKey != "" {
+		metadata := map[string]interface{}{"size": bloomFilter.size, "numHashes": bloomFilter.numHashes}
+		err = getRedisClient().HSet(context.Background(), bloomFilter.metadataKey, metadata).Err()
+	}
 	return err
 }
 
